@@ -459,7 +459,7 @@ func rulePageRange(c *eng.Ctx) {
 	name := eng.FuncName(fn)
 	// appends of values derived from options.pages elements
 	fromRequested := func(v ssa.Value) (ssa.Value, bool) {
-		sl := eng.Slice(v, nil)
+		sl := eng.Slice(v, pureLeafCall)
 		for w := range sl {
 			if ia, ok := w.(*ssa.IndexAddr); ok {
 				if fr, ok := eng.LoadOfField(ia.X); ok && fr.Field == "pages" {
@@ -643,4 +643,24 @@ func rulePageStamp(c *eng.Ctx) {
 		c.Ok(R, "model.(*Document).AddPage", add.Pos(), fmt.Sprintf("AddPage assigns Number by insertion order: %v", overwrites))
 	}
 	_ = types.Typ
+}
+
+// pureLeafCall: a call to a function of the module that is one straight line of arithmetic on its parameters (no
+// branch, no call, no memory): zeroIndexOf(p) is p-1 written with a name.
+func pureLeafCall(call *ssa.Call) bool {
+	g := eng.StaticCallee(call)
+	if g == nil || !eng.InModule(g) || len(g.Blocks) != 1 {
+		return false
+	}
+	for _, in := range g.Blocks[0].Instrs {
+		switch in.(type) {
+		case *ssa.BinOp, *ssa.UnOp, *ssa.Convert, *ssa.ChangeType, *ssa.Return, *ssa.DebugRef:
+		default:
+			return false
+		}
+		if u, ok := in.(*ssa.UnOp); ok && u.Op == token.MUL {
+			return false
+		}
+	}
+	return true
 }
